@@ -46,6 +46,7 @@ class GenA:
         self.pairs = []     # (ref, (nf, nf))
         self.blobs = []     # (ref, kind, nf)
         self.group_counter = 0
+        self.meas = []
         self.dim_defines = 0
         self.unit_symbol = {n: (d["symbols"][0] if d.get("symbols") else None)
                             for n, d in snapshot["units"].items() if not d.get("half_built")}
@@ -838,6 +839,48 @@ class GenA:
         ref = self.emit({"op": "dump", "x": d, "kind": "dim", "codec": codec})
         self.blobs.append((ref, "dim", md))
 
+    def g_measurement(self):
+        rng = self.rng
+        q, mq = self.any_qty()
+        m1 = self.emit({"op": "measure", "q": q, "unc": rng.choice([["float", "0.1"], ["int", "2"], ["float", "0.0"],
+                                                                     ["dec", "0.05"]])})
+        self.meas.append(m1)
+        k = rng.random()
+        if k < 0.5 and len(self.meas) >= 2:
+            a, b = rng.sample(self.meas, 2)
+            r = self.emit({"op": "meas_bin", "a": a, "b": b, "f": rng.choice(["+", "-", "*", "/", "==", "<"])})
+            self.meas.append(r)
+        elif k < 0.75:
+            q2, _ = self.any_qty()
+            r = self.emit({"op": "meas_bin", "a": m1, "b": q2, "bkind": "qty",
+                           "f": rng.choice(["+", "-", "*", "/", "r-", "r/"])})
+            self.meas.append(r)
+        else:
+            r = self.emit({"op": "meas_pow", "a": m1, "n": rng.choice([2, 3, -1, -2, 0])})
+            self.meas.append(r)
+        if rng.random() < 0.6:
+            self.emit({"op": "meas_render", "x": rng.choice(self.meas),
+                       "how": rng.choice(["str", "format", "mathml", "pretty"]),
+                       "spec": rng.choice(["%.3f::/", "+.2f:.2f:/", "%", "+:.2f"])})
+
+    def g_level(self):
+        rng = self.rng
+        q, mq = self.any_qty()
+        lu = self.emit({"op": "logunit", "ref": q, "log": rng.choice(["decibel", "bel", "neper", "octave"]),
+                        "prefix": rng.choice([None, None, "milli", "kilo", "centi"]) if self.shipped_prefixes else None})
+        q2, _ = self.any_qty()
+        if rng.random() < 0.5:
+            lv = self.emit({"op": "level", "q": q2, "lu": lu, "how": "level"})
+        else:
+            lv = self.emit({"op": "level", "q": q2, "lu": lu, "how": "mul", "m": rng.choice([["int", "3"], ["float", "-20.0"]])})
+        self.emit({"op": "level_quantify", "lv": lv})
+
+    def g_cli(self):
+        if len(self.snap.get("imports", [])) < 17:
+            return self.g_render()
+        q, mq = self.any_qty()
+        self.emit({"op": "cli", "q": q})
+
     def g_dump(self):
         codec = self.rng.choice(["pickle2", "pickle3", "pickle4", "pickle5", "json", "json"])
         if self.qtys and self.rng.random() < 0.35:
@@ -1092,13 +1135,14 @@ class GenA:
             "q_new": 5, "q_bin": 5, "q_unit": 3, "q_pow": 2, "q_root": 2, "quantify": 3,
             "unprefixed": 2, "q_unit_of": 2, "convert": 5, "cmp": 3, "roundtrip": 4,
             "evict": 4, "import": 1, "d_ops": 2, "p_ops": 2, "dump": 3, "load": 2, "restart": 1.5,
-            "dim_define": 0.7, "dim_roundtrip": 1.5, "dim_epoch": 0.8,
+            "dim_define": 0.7, "dim_roundtrip": 1.5, "dim_epoch": 0.8, "measurement": 3, "level": 2, "cli": 1.5,
         },
         "C02": {
             "law": 22, "define_unit": 4, "derive": 3, "u_mul": 8, "u_pow": 5, "u_root": 5, "pow_then_root": 4,
             "p_mul_u": 5, "as_ratio": 3, "render": 2, "parse": 2, "q_new": 2, "q_bin": 3, "q_unit": 2,
             "q_pow": 2, "quantify": 2, "unprefixed": 1, "q_unit_of": 2, "convert": 1, "roundtrip": 3,
             "evict": 4, "import": 1, "d_ops": 3, "p_ops": 4, "dump": 2, "load": 2, "restart": 1,
+            "measurement": 2, "level": 1.5, "cli": 1,
         },
         "C13": {
             "c13": 30, "parse": 10, "adversarial_symbol": 3, "define_unit": 2, "decl_alias": 2, "derive": 2,
